@@ -72,6 +72,7 @@ AXES_DECL = [
     ("note.created_by", _B, 0, 0, 1, ALL), ("note.is_issue", _B, 0, 0, 1, ALL),
     # ---- recordings
     ("rec.time_expansion", (1.0, 2.0, 0.5), 1.0, 1.0, 2.0, ALL), ("rec.hash", _E, 0, 0, 1, ALL),
+    ("rec.path_form", _B, 0, 0, 0, ALL),
     ("rec.date", _B, 0, 0, 1, ALL), ("rec.time", _B, 0, 0, 1, ALL),
     ("rec.latitude", _E, 0, 0, 1, ALL), ("rec.longitude", _B, 0, 0, 1, ALL),
     ("rec.license", _B, 0, 0, 1, ALL), ("rec.rights", _E, 0, 0, 1, ALL),
@@ -121,7 +122,8 @@ AXES_DECL = [
     ("eval.shared_annotations", _B, 0, 0, 0, EVAL), ("eval.shared_predictions", _B, 0, 0, 0, EVAL),
     ("sea.same_sound_event", _B, 0, 0, 0, ANN), ("seq.parent_also_annotated", _B, 0, 0, 0, ANN),
     # 1 / 2: the second tag of every site has the first tag's key in another letter case / with a blank for the underscore
-    ("tags.key_case", (0, 1, 2), 0, 0, 0, ALL),
+    # 3: the second tag has the first tag's key and the first tag's value in the other Unicode normalisation form (NFC / NFD)
+    ("tags.key_case", (0, 1, 2, 3), 0, 0, 0, ALL),
     ("feat.zero_value", (0, 1, 2), 0, 0, 0, ALL),
     ("time.tz_aware", _B, 0, 0, 0, ALL),
     # ---- configuration
@@ -207,13 +209,16 @@ class Universe:
         site_name = site if self.c["share.tags_distinct"] else "all"
         # within one site: same key, different values; across sites: different keys, same values
         key = "key_" + site_name
-        if self.c["tags.key_case"] and i % 2 == 1:
+        value = "val %d" % i
+        if self.c["tags.key_case"] == 3:
+            value = ["caf\u00e9 %d", "cafe\u0301 %d"][i % 2] % (i // 2)
+        elif self.c["tags.key_case"] and i % 2 == 1:
             key = ("Key_" if self.c["tags.key_case"] == 1 else "key ") + site_name
         if self.c.get("_term_alias") and i % 2 == 1:
             # C02 only: a second term with the first term's *name* but its own label (a tag is stored under its term's label)
             alias = data.Term(label="Label " + site_name, name="soundevent:key_" + site_name, definition="alias")
-            return self.get("tag:" + name, lambda: data.Tag(term=alias, value="val %d" % i))
-        return self.get("tag:" + name, lambda: data.Tag(term=term(key), value="val %d" % i))
+            return self.get("tag:" + name, lambda: data.Tag(term=alias, value=value))
+        return self.get("tag:" + name, lambda: data.Tag(term=term(key), value=value))
 
     def tags(self, site, n):
         return [self.tag(site, i) for i in range(n)]
@@ -250,7 +255,9 @@ class Universe:
 
         def make():
             return data.Recording(
-                uuid=U("rec:%d" % i), path="%s/sub %d/réc_%d.wav" % (AUDIO_DIR, i, i),
+                uuid=U("rec:%d" % i),
+                # rec.path_form 1: an up-level reference inside the audio directory (the path object must come back as given)
+                path=("%s/sub %d/réc_%d.wav" if not c["rec.path_form"] else "%s/tmp/../sub %d/réc_%d.wav") % (AUDIO_DIR, i, i),
                 duration=10.0 + i, channels=1 + i, samplerate=8000 * (i + 1),
                 time_expansion=c["rec.time_expansion"],
                 hash=[None, "hash%d" % i, ""][c["rec.hash"]],
